@@ -64,7 +64,9 @@ CLAIMS = {
                    "(loop invariants over the ghost product through the real constructor and __call__; induction lemmas prod-zero, prod-inverse), and additionally by loop-free "
                    "unrolling for 2..4 knots."),
     "C11": bounded("BOUNDED (deciding, exhaustive over all dyadic trees of depth<=4, all slice groupings/versions/containers): weights sum to the interval length, linear exactness, "
-                   "degree 2m+1 on complete grids, binary-tree completion. PROVED kernel: get_romberg_coefficient equals the Richardson constant for m<=3 independent of [a,b]; "
+                   "degree 2m+1 on complete grids, binary-tree completion. PROVED kernel: get_romberg_coefficient for ANY depth m and any j (exponents 1, 2) is the product of the interval-free ratios "
+                   "2^(je)/(2^(je)-2^(ie)) (ghost Prod invariant through the real loop; lemmas romberg-ratio, pow2-strictly-monotone), i.e. independent of [a,b]; for m<=3 it equals the "
+                   "explicit Richardson constant; "
                    "the constants sum to 1 and cancel the error terms."),
     "C12": mixed("PROVED: Function.__call__ single-point path returns the evaluation of the point whether cached or not, keeps the cache sound and counts each distinct point once; "
                  "every local is defined on every path; reset/deactivate contracts. BOUNDED: all 33 function classes, operation histories (single/batch/repeat/empty/reset/"
